@@ -24,6 +24,8 @@ import (
 
 type HarnessCfg struct {
 	MaxPaths int   `json:"maxPaths"`
+	MaxPathsThorough int `json:"maxPathsThorough"`
+	MaxSecThorough   int `json:"maxSecThorough"`
 	MaxDec   int   `json:"maxDec"`
 	MaxSteps int64 `json:"maxSteps"`
 	MaxSec   int   `json:"maxSec"`
@@ -312,10 +314,16 @@ func runHarness(w *World, execs []*Exec, h *ssa.Function, cfg *HarnessCfg) *Harn
 	t0 := time.Now()
 	res := newHarnessResult(h.Name())
 	maxPaths := cfg.MaxPaths
+	if *flagTier == "thorough" && cfg.MaxPathsThorough > 0 {
+		maxPaths = cfg.MaxPathsThorough
+	}
 	if maxPaths == 0 {
 		maxPaths = tierInt(20000, 400000)
 	}
 	maxSec := cfg.MaxSec
+	if *flagTier == "thorough" && cfg.MaxSecThorough > 0 {
+		maxSec = cfg.MaxSecThorough
+	}
 	if maxSec == 0 {
 		maxSec = tierInt(150, 900)
 	}
